@@ -610,3 +610,105 @@ func TestC15HandlerSessionsLargeAnswers(t *testing.T) {
 		col.Case(true, hx.JSON(desc), func() any { return desc })
 	})
 }
+
+// TestC15HandlerSessionsMixed: several sessions of one small CacheHandler publish
+// from a shared pool (so that most EVENTs are refused: re-offers, older versions,
+// events named by a deletion request), deletion requests and evictions happen all
+// the time, and REQs run in between. Sequentially checkable part: every EVENT gets
+// exactly one OK naming it, every REQ one EOSE after at most `capacity` events, each
+// matching the filter. Its main purpose is the race-detector stage.
+func TestC15HandlerSessionsMixed(t *testing.T) {
+	col := ev.For("C15").SetRule(c15Rule)
+	rapid.Check(t, func(t *rapid.T) {
+		capacity := rapid.IntRange(2, 12).Draw(t, "cap")
+		ns := rapid.IntRange(2, 5).Draw(t, "sessions")
+		steps := rapid.IntRange(40, 200).Draw(t, "steps")
+		desc := map[string]any{"cap": capacity, "sessions": ns, "steps": steps, "mode": "handler sessions, mixed refused/accepted EVENTs, deletion requests, REQs"}
+		handler := mocrelay.NewCacheHandler(capacity)
+		world := &gen.World{Authors: gen.Pubkeys(2)}
+		cfg := &gen.StoreCfg{World: world, TsBase: 1000, TsSpan: 30, WeightKind5: 4}
+		pool := make([]*mocrelay.Event, 0, 24)
+		for i := 0; i < 24; i++ {
+			if i > 6 && i%3 == 0 {
+				pool = append(pool, cfg.DrawVersion(t))
+			} else {
+				pool = append(pool, cfg.DrawEvent(t))
+			}
+		}
+		scripts := make([][]int, ns)
+		for s := range scripts {
+			scripts[s] = rapid.SliceOfN(rapid.IntRange(-3, len(pool)-1), steps, steps).Draw(t, fmt.Sprintf("script%d", s))
+		}
+		var wg sync.WaitGroup
+		fails := make([]string, ns)
+		for s := 0; s < ns; s++ {
+			wg.Add(1)
+			go func(s int) {
+				defer wg.Done()
+				ctx, cancel := context.WithCancel(context.Background())
+				defer cancel()
+				recv := make(chan mocrelay.ClientMsg)
+				send := make(chan mocrelay.ServerMsg)
+				go handler.ServeNostr(ctx, send, recv)
+				next := func() (mocrelay.ServerMsg, bool) {
+					select {
+					case m := <-send:
+						return m, true
+					case <-time.After(20 * time.Second):
+						return nil, false
+					}
+				}
+				for _, op := range scripts[s] {
+					if op >= 0 {
+						e := pool[op]
+						recv <- &mocrelay.ClientEventMsg{Event: e}
+						m, ok := next()
+						o, is := m.(*mocrelay.ServerOKMsg)
+						if !ok || !is || o.EventID != e.ID {
+							fails[s] = fmt.Sprintf("session %d: EVENT %s answered by %s", s, gen.Short(e.ID), hx.JSON(gen.Norm(m)))
+							return
+						}
+						continue
+					}
+					f := &mocrelay.ReqFilter{}
+					switch op {
+					case -1:
+						f.Authors = []string{world.Authors[s%2]}
+					case -2:
+						f.Kinds = []int64{5}
+					}
+					recv <- &mocrelay.ClientReqMsg{SubscriptionID: "q", ReqFilters: []*mocrelay.ReqFilter{f}}
+					n := 0
+					for {
+						m, ok := next()
+						if !ok {
+							fails[s] = fmt.Sprintf("session %d: REQ not answered by EOSE", s)
+							return
+						}
+						if em, is := m.(*mocrelay.ServerEventMsg); is {
+							n++
+							if !gen.MatchFilter(em.Event, f) || em.SubscriptionID != "q" || n > capacity {
+								fails[s] = fmt.Sprintf("session %d: REQ %s answered with event %d %s", s, hx.JSON(gen.BriefFilter(f)), n, hx.JSON(gen.Brief(em.Event)))
+								return
+							}
+							continue
+						}
+						if _, is := m.(*mocrelay.ServerEOSEMsg); is {
+							break
+						}
+						fails[s] = fmt.Sprintf("session %d: REQ answered by %s", s, hx.JSON(gen.Norm(m)))
+						return
+					}
+				}
+			}(s)
+		}
+		wg.Wait()
+		for _, f := range fails {
+			if f != "" {
+				hx.Fail(t, ev.Failure{Property: "C15", Signature: "handler-session-reply", Clause: "every result is one that some sequential ordering of the operations could have produced (each EVENT one OK naming it, each REQ matching events then EOSE)", Case: desc, Observed: f})
+			}
+		}
+		col.Label("mode:handler-mixed")
+		col.Case(true, hx.JSON(desc), func() any { return desc })
+	})
+}
